@@ -6,6 +6,7 @@ use crate::oracle::{self, jacobi_eig, orth_defect, Mat};
 use proptest::collection::vec;
 use proptest::prelude::*;
 use serde::{Deserialize, Serialize};
+use smartcore::linalg::naive::dense_matrix::DenseMatrix;
 use smartcore::decomposition::pca::{PCAParameters, PCA};
 use smartcore::decomposition::svd::{SVDParameters, SVD};
 
@@ -86,8 +87,10 @@ fn check_pca(case: &ProjCase, ctx: &mut Ctx) -> Result<(), Fail> {
     let r = catch(|| {
         // builder calls in two orders (a setter that rebuilds from the defaults would lose earlier settings)
         let params = if (n + k) % 2 == 0 { PCAParameters::default().with_n_components(k).with_use_correlation_matrix(case.correlation) } else { PCAParameters::default().with_use_correlation_matrix(case.correlation).with_n_components(k) };
-        let m = PCA::fit(&xm, params).map_err(|e| e.to_string())?;
-        let t = m.transform(&xm).map_err(|e| e.to_string())?;
+        // inherent entry points, or (every other case) the generic traits of smartcore::api
+        let via_trait = (n / 2) % 2 == 1;
+        let m: PCA<f64, DenseMatrix<f64>> = if via_trait { unsup_fit(&xm, params) } else { PCA::fit(&xm, params) }.map_err(|e| e.to_string())?;
+        let t = if via_trait { tr_transform(&m, &xm) } else { m.transform(&xm) }.map_err(|e| e.to_string())?;
         let top = m.transform(&<DenseB as Build<f64>>::build(&x.slice(0, case.split, 0, p))).map_err(|e| e.to_string())?;
         let bot = if case.split < n { Some(m.transform(&<DenseB as Build<f64>>::build(&x.slice(case.split, n, 0, p))).map_err(|e| e.to_string())?) } else { None };
         Ok::<_, String>((to_mat(m.components()), to_mat(&t), to_mat(&top), bot.map(|b| to_mat(&b)), serde_json::to_value(&m).map_err(|e| e.to_string())?))
@@ -179,8 +182,9 @@ fn check_tsvd(case: &ProjCase, ctx: &mut Ctx) -> Result<(), Fail> {
     let k = case.k.min(p - 1);
     ctx.nontrivial(p >= 3);
     let r = catch(|| {
-        let m = SVD::fit(&xm, SVDParameters::default().with_n_components(k)).map_err(|e| e.to_string())?;
-        let t = m.transform(&xm).map_err(|e| e.to_string())?;
+        let via_trait = (n / 2) % 2 == 1;
+        let m: SVD<f64, DenseMatrix<f64>> = if via_trait { unsup_fit(&xm, SVDParameters::default().with_n_components(k)) } else { SVD::fit(&xm, SVDParameters::default().with_n_components(k)) }.map_err(|e| e.to_string())?;
+        let t = if via_trait { tr_transform(&m, &xm) } else { m.transform(&xm) }.map_err(|e| e.to_string())?;
         let top = m.transform(&<DenseB as Build<f64>>::build(&x.slice(0, case.split, 0, p))).map_err(|e| e.to_string())?;
         let bot = if case.split < n { Some(m.transform(&<DenseB as Build<f64>>::build(&x.slice(case.split, n, 0, p))).map_err(|e| e.to_string())?) } else { None };
         Ok::<_, String>((to_mat(m.components()), to_mat(&t), to_mat(&top), bot.map(|b| to_mat(&b))))
